@@ -325,11 +325,15 @@ Proof.
   intros Hs Hopt. apply andb_true_iff in Hs as [Hsh Has]. unfold variant_gen.
   intros H H'. apply bind_ok in H as (vt & Hvt & H). apply bind_ok in H as (parsed & Hparsed & H).
   apply bind_ok in H' as (vt' & Hvt' & H'). apply bind_ok in H' as (parsed' & Hparsed' & H').
-  pose proof (shape_gen_inst _ _ _ _ _ _ Hsh Hopt Hvt Hvt') as [Hv1 Hv2].
   assert (Hp : inst parsed parsed').
   { destruct (v_as v) as [u|].
     - rewrite (rsubst_dsubst args n _ Has) in Hparsed'. eapply name_of_inst; eassumption.
-    - destruct (v_type v); inversion Hparsed; inversion Hparsed'; subst; [constructor | exact Hv1]. }
+    - destruct (v_type v); inversion Hparsed; inversion Hparsed'; subst; [constructor|].
+      cbn match in Hvt, Hvt'. destruct (shape_gen_inst _ _ _ _ _ _ Hsh Hopt Hvt Hvt') as [Hv1 _]. exact Hv1. }
+  (* the two shapes have a flattened form or not together: it is decided by the fields and the tag alone *)
+  assert (Hv2 : is_some (snd vt) = is_some (snd vt')).
+  { apply variant_shape_cases in Hvt as [Hvt|(_ & _ & Hvt)]; apply variant_shape_cases in Hvt' as [Hvt'|(_ & _ & Hvt')];
+      try apply shape_gen_flat in Hvt; try apply shape_gen_flat in Hvt'; congruence. }
   assert (Htag : forall t nm, inst (TObj OVariant [(quoted_head t, TLit nm)]) (TObj OVariant [(quoted_head t, TLit nm)])).
   { intros. constructor. apply inst_qh. constructor. }
   destruct (v_untagged v); [inversion H; inversion H'; subst; exact Hp|].
@@ -338,7 +342,7 @@ Proof.
     + inversion H; inversion H'. constructor.
     + destruct (lone_field (STuple fs)) as [fl|]; [destruct (f_skip fl)|]; inversion H; inversion H'; try constructor; apply inst_qh; exact Hp.
     + cbn in H, H'. inversion H; inversion H'. constructor. apply inst_qh; exact Hp.
-  - destruct (snd vt) as [y|]; destruct (snd vt') as [y'|]; try contradiction; [inversion H; inversion H'; subst; exact Hp|].
+  - destruct (snd vt) as [y|]; destruct (snd vt') as [y'|]; try discriminate Hv2; [inversion H; inversion H'; subst; exact Hp|].
     destruct (v_shape v) as [|fs|fs] eqn:Hshape.
     + inversion H; inversion H'. apply Htag.
     + destruct (lone_field (STuple fs)) as [fl|] eqn:Hlone.
